@@ -114,7 +114,7 @@ var TemplateNames = []string{
 	"leading-lookahead", "bumpalong-loop", "loop-then-x", "loop-ending-loop-body", "alt-shared-prefix",
 	"alt-shared-set-prefix", "atomic-alternation", "nested-atomic", "lookbehind-loop", "conditional-loop",
 	"wide-literal", "negated-first-set", "counted-group-loop", "lazy-loop-then-x", "alt-with-empty",
-	"start-anchor-G", "backref-after-loop", "lookaround-conditional", "alt-counted-set-prefix", "loop-then-optional-group", "group-loop-overlapping-head", "long-literal", "lookbehind-group-loop", "landmark-overlap", "lazy-group-loop", "capture-loop-backref", "long-counted-set", "balancing-pop", "balancing-pop-mirrored",
+	"start-anchor-G", "backref-after-loop", "lookaround-conditional", "alt-counted-set-prefix", "loop-then-optional-group", "group-loop-overlapping-head", "long-literal", "lookbehind-group-loop", "landmark-overlap", "lazy-group-loop", "capture-loop-backref", "long-counted-set", "balancing-pop", "balancing-pop-mirrored", "landmark-alternation",
 }
 
 // Template builds template number k with random leaves.
@@ -328,6 +328,38 @@ func (t *T) Template(k int) *Node {
 			popNode = Rep(pop, pq[0], pq[1])
 		}
 		return Cat(Rep(push, 1, -1), popNode, t.tail())
+	case "landmark-alternation":
+		// a leading unbounded set loop and landmarks that are alternations of "whitespace loop, core,
+		// whitespace loop" (required or optional whitespace): \w+(?:\s+at\s+|\s*@\s*)\w*(?:\s+dot\s+|\.)\w+
+		ws := func(required bool) *Node {
+			if required {
+				return Rep(Esc("s"), 1, -1)
+			}
+			return Rep(Esc("s"), 0, -1)
+		}
+		landmark := func() *Node {
+			n := Or()
+			for i := 0; i < 1+t.R.Intn(2); i++ {
+				core := []*Node{S(t.word(1 + t.R.Intn(3))), L(t.l()), Cls(false, CR(t.l()), CR(t.l()))}[t.R.Intn(3)]
+				switch t.R.Intn(4) {
+				case 0:
+					n.Kids = append(n.Kids, Cat(ws(true), core, ws(true)))
+				case 1:
+					n.Kids = append(n.Kids, Cat(ws(false), core, ws(false)))
+				case 2:
+					n.Kids = append(n.Kids, Cat(ws(t.R.Intn(2) == 0), core, ws(t.R.Intn(2) == 0)))
+				default:
+					n.Kids = append(n.Kids, core)
+				}
+			}
+			return NC(n)
+		}
+		lead := []*Node{Esc("w"), Cls(false, CEsc("w"), CR('-'), CR('.')), Esc("d")}[t.R.Intn(3)]
+		n := Cat(Rep(lead, 1, -1), landmark(), Rep(Esc("w"), t.R.Intn(2), -1), landmark(), Rep(Esc("w"), 1, -1))
+		if t.R.Intn(3) == 0 {
+			n.Kids = append(n.Kids, landmark(), Rep(Esc("w"), 1, -1))
+		}
+		return n
 	case "balancing-pop-mirrored":
 		// the mirror image of balancing-pop: read right to left the pushes come first, so the cancelled
 		// capture lies to the right of the balancing group (left to right the pop finds nothing to pop)
